@@ -167,21 +167,21 @@ class C05(Prop):
     def oracle(self, case, ops, results):
         cell = case["meta"].get("cell")
         if not cell:
-            return []
+            return self.skip("guard")
         ci, opt, upd, api, state = cell
         obs = [r for r in results if r[0] == "obs"]
         fss = [r for r in results if r[0] == "fs"]
         op_with_obs = [o for o in ops if o[0] not in ("init", "dumpfs", "counters")]
         if len(op_with_obs) != len(obs) or len(fss) != 2 or not obs:
-            return []
+            return self.skip("guard")
         (name, kv), (_, idx, o) = list(zip(op_with_obs, obs))[-1]
         if name != "match" or o["outcome"] == "nocall":
-            return []      # (a shrunk case whose Config handle is gone makes no call)
+            return self.skip("a shrunk case whose Config handle is gone makes no call")
         names = [n_ for n_, _ in ops if n_ != "init"]
         if names[-3:] != ["dumpfs", "match", "dumpfs"]:
-            return []      # (a shrunk case that lost its shape: the file system is inspected right before and after the judged call)
+            return self.skip("a shrunk case that lost its shape: the file system is inspected right ")
         if state != "missing" and not fss[0][2]:
-            return []      # (a shrunk case that lost the recording run: the cell's state no longer holds)
+            return self.skip("a shrunk case that lost the recording run: the cell's state no longer ")
         exp_out, exp_write = self.expected(ci, opt, upd, state)
         wrote = o["writes"] != "-" or fss[0][2] != fss[1][2]
         if o["outcome"] != exp_out or wrote != exp_write:
